@@ -16,6 +16,10 @@ import (
 	"sync/atomic"
 	"testing"
 
+	commonpb "go.temporal.io/api/common/v1"
+	"go.temporal.io/api/workflowservice/v1"
+	"go.temporal.io/server/api/adminservice/v1"
+	persistencespb "go.temporal.io/server/api/persistence/v1"
 	"go.temporal.io/server/common/log"
 	"google.golang.org/protobuf/proto"
 
@@ -247,15 +251,86 @@ func TestVerifC13(t *testing.T) {
 			}
 		}
 	})
-	res.Set("evaluations", evals+rtCases)
-	res.Set("distinct_nontrivial", nontrivial+rtCases/2)
+	// (b2) search-attribute keys: all one-to-one mappings over {a,b,c,d} (swaps, chains, cycles) x every key set
+	// whose unmapped keys do not collide with the image of its mapped keys, typed container and bare map: one
+	// translation equals the simultaneous renaming (values follow their keys), the inverse restores the original
+	var saCases int64
+	saMappings := vfOneToOneMappings(letters, len(letters))
+	vfParallel(len(saMappings), func(mi int) {
+		m := saMappings[mi]
+		inv := vfInverse(m)
+		tr := NewSearchAttributeTranslator(log.NewNoopLogger(), map[string]map[string]string{"ns-id": m}, map[string]map[string]string{"ns-id": inv})
+		for mask := 1; mask < 1<<len(letters); mask++ {
+			var keys []string
+			for i, l := range letters {
+				if mask&(1<<i) != 0 {
+					keys = append(keys, l)
+				}
+			}
+			present := map[string]bool{}
+			for _, k := range keys {
+				present[k] = true
+			}
+			collide, reversible := false, true
+			for _, k := range keys {
+				if img, ok := m[k]; ok {
+					if _, mapped := m[img]; present[img] && !mapped {
+						collide = true
+					}
+				} else if _, inRange := inv[k]; inRange {
+					reversible = false
+				}
+			}
+			if collide {
+				continue
+			}
+			for _, form := range []string{"typed", "bare-map"} {
+				fields := map[string]*commonpb.Payload{}
+				for _, k := range keys {
+					fields[k] = &commonpb.Payload{Metadata: map[string][]byte{"encoding": []byte("json/plain")}, Data: []byte("\"value of " + k + "\"")}
+				}
+				var msg proto.Message
+				if form == "typed" {
+					msg = &workflowservice.StartWorkflowExecutionRequest{WorkflowId: "wf", SearchAttributes: &commonpb.SearchAttributes{IndexedFields: fields}}
+				} else {
+					msg = &adminservice.DescribeMutableStateResponse{DatabaseMutableState: &persistencespb.WorkflowMutableState{ExecutionInfo: &persistencespb.WorkflowExecutionInfo{WorkflowId: "wf", SearchAttributes: fields}}}
+				}
+				orig := proto.Clone(msg)
+				ref := proto.Clone(msg)
+				if _, err := vrt.RefTranslateSA(ref, m); err != nil {
+					res.Violate("harness/reference-error", err.Error(), nil)
+					continue
+				}
+				replay := map[string]any{"sa_mapping": m, "keys": keys, "form": form}
+				atomic.AddInt64(&saCases, 1)
+				if _, err := tr.TranslateRequest(msg); err != nil {
+					res.Violate("sa-mapping/translator-error", fmt.Sprintf("mapping {%s}, keys %v, %s: %v", vfMapString(m), keys, form, err), replay)
+					continue
+				}
+				if eq, _ := vrt.CanonEqual(msg, ref); !eq {
+					res.Violate("sa-mapping/not-applied-exactly-once/"+form, fmt.Sprintf("search-attribute mapping {%s}, keys %v (%s): one translation does not equal renaming every mapped key once, values following their keys\n got:  %v\n want: %v", vfMapString(m), keys, form, vrt.SAKeys(msg), vrt.SAKeys(ref)), replay)
+					continue
+				}
+				if reversible {
+					if _, err := tr.TranslateResponse(msg); err == nil {
+						if eq, _ := vrt.CanonEqual(msg, orig); !eq {
+							res.Violate("sa-mapping/not-restored/"+form, fmt.Sprintf("search-attribute mapping {%s}, keys %v (%s): response∘request does not restore the original keys\n got:  %v\n want: %v", vfMapString(m), keys, form, vrt.SAKeys(msg), vrt.SAKeys(orig)), replay)
+						}
+					}
+				}
+			}
+		}
+	})
+	res.Set("sa_mapping_cases", saCases)
+	res.Set("evaluations", evals+rtCases+saCases)
+	res.Set("distinct_nontrivial", nontrivial+rtCases/2+saCases)
 	res.Set("frame_cases", evals)
 	res.Set("frame_cases_checked_byte_identical", unchangedChecked)
 	res.Set("roundtrip_cases", rtCases)
 	res.Set("mappings", int64(len(mappings)))
 	res.Set("roundtrip_roots", int64(len(pairs)))
 	sort.Strings(clsNames)
-	res.Set("rule", fmt.Sprintf("(a) every namespace path of every root x value classes %v (mirrored for the response direction) + fully populated message per root and class, through the namespace and search-attribute translators in the proxy's order; (b) all %d one-to-one mappings over {a,b,c,d} with <= %d pairs (identity pairs and chains a->b,b->c included) x %d method request/response pairs x names a..e: one translation equals the reference applied once, and response∘request restores the message when the name is in the domain or outside domain and range; non-trivial = the reference changes something", clsNames, len(mappings), maxPairs, len(pairs)))
+	res.Set("rule", fmt.Sprintf("(a) every namespace path of every root x value classes %v (mirrored for the response direction) + fully populated message per root and class, through the namespace and search-attribute translators in the proxy's order; (b) all %d one-to-one mappings over {a,b,c,d} with <= %d pairs (identity pairs and chains a->b,b->c included) x %d method request/response pairs x names a..e: one translation equals the reference applied once, and response∘request restores the message when the name is in the domain or outside domain and range; (b2) all one-to-one search-attribute mappings over {a,b,c,d} (swaps, chains, cycles) x every non-colliding key set x {typed container, bare map}; non-trivial = the reference changes something", clsNames, len(mappings), maxPairs, len(pairs)))
 	res.Set("exhaustive", true)
 	res.Sample(map[string]any{"mapping": mappings[len(mappings)/2], "name": "a"})
 	res.Sample(map[string]any{"class": "proper-prefix", "root": jobs[0].root.String(), "path": jobs[0].path.String()})
